@@ -172,7 +172,9 @@ class Aspire:
                 samples.log_likelihood = samples.array_to_namespace(
                     self.log_likelihood(samples)
                 )
-            samples.compute_weights()
+            # Weights need the proposal density of the points
+            if samples.log_q is not None:
+                samples.compute_weights()
         return samples
 
     def init_flow(self):
